@@ -63,4 +63,23 @@ theorem ordersFrom_is_code (p : Params d) (e : Econ d) (gap : Fin d.n → Ind d 
   simp only [ordersFrom, supplierShare, alt_order_cell, noalt_order_cell, needWith_is_code]
   split_ifs <;> first | rfl | ring1
 
+/-- the order phase as a whole when inventories are away from their goals, in terms of the code's own cells: goal from the
+    constraint formula without psi, gap from `calc_matrix_stock_gap` of both classes, need = gap + use, times the supplier
+    share of the variant in force. -/
+theorem ordersOpen_is_code (p : Params d) (e e' : Econ d) (h : ordersOpen p e = .ok e') (i j : Ind d) :
+    e'.orders i j =
+      (let x := xOpt p e.dTot e.deltaTot e.alpha
+       let gap := stock_gap_psi_cell (p.rest i.2)
+                    (stock_gap_base_cell (p.invDur i.2).isSome
+                      (calc_inventory_constraints_base (x j) (p.a i.2 j) (durOrZero p i.2)) (e.stock i.2 j))
+       let need := need_cell gap (e.prod j) (p.a i.2 j)
+       if p.alt then alt_order_cell need (altShare p e.deltaTot e.alpha i j) else noalt_order_cell need (p.Zshare i j)) := by
+  unfold ordersOpen ordersFinish at h
+  simp only at h
+  split at h
+  · cases h
+  · cases h
+    simp only [goal_is_code, gapOpen_is_code]
+    exact ordersFrom_is_code p e _ i j
+
 end Boario.Gen
